@@ -1,0 +1,92 @@
+//go:build verif
+
+package file
+
+import (
+	"io"
+	"os"
+	"sync"
+
+	"github.com/ozontech/file.d/metric"
+	"github.com/ozontech/file.d/pipeline"
+	"github.com/ozontech/file.d/pipeline/metadata"
+	"github.com/prometheus/client_golang/prometheus"
+	"go.uber.org/atomic"
+	"go.uber.org/zap"
+)
+
+// Verification-only exports (build tag `verif`). Nothing here is compiled into normal builds.
+
+// VerifCall is one controller.In call made by worker.work.
+type VerifCall struct {
+	Offset int64
+	Data   []byte
+}
+
+type verifInputer struct {
+	calls []VerifCall
+}
+
+func (i *verifInputer) IncReadOps()                         {}
+func (i *verifInputer) IncMaxEventSizeExceeded(_ ...string) {}
+func (i *verifInputer) In(_ pipeline.SourceID, _ string, off pipeline.Offsets, data []byte, _ bool, _ metadata.MetaData) uint64 {
+	i.calls = append(i.calls, VerifCall{Offset: pipeline.VerifOffsetsCurrent(off), Data: append([]byte(nil), data...)})
+	return uint64(len(i.calls))
+}
+
+// VerifWorkerTurns runs the real worker.work on the file at path. Before each turn the
+// corresponding element of appends is appended to the file; a turn runs until EOF.
+// It returns every In call, and the job's curOffset / tail / shouldSkip after the last turn.
+func VerifWorkerTurns(maxEventSize int, cutOff bool, readBufferSize int, path string, start int64, skip bool, appends [][]byte) (calls []VerifCall, curOffset int64, tail []byte, skipAfter bool, err error) {
+	wf, err := os.OpenFile(path, os.O_WRONLY|os.O_APPEND|os.O_CREATE, 0o644)
+	if err != nil {
+		return nil, 0, nil, false, err
+	}
+	defer wf.Close()
+	f, err := os.Open(path)
+	if err != nil {
+		return nil, 0, nil, false, err
+	}
+	defer f.Close()
+
+	job := &Job{
+		file:       f,
+		isDone:     false,
+		shouldSkip: *atomic.NewBool(skip),
+		mu:         &sync.Mutex{},
+	}
+	if _, err = f.Seek(start, io.SeekStart); err != nil {
+		return nil, 0, nil, false, err
+	}
+	job.curOffset = start
+
+	ctl := metric.NewCtl("verif", prometheus.NewRegistry(), 0, 0)
+	metrics := newMetricCollection(
+		ctl.RegisterCounter("verif_worker1", "h"),
+		ctl.RegisterCounter("verif_worker2", "h"),
+		ctl.RegisterGauge("verif_worker3", "h"),
+		ctl.RegisterGauge("verif_worker4", "h"),
+	)
+	lg := zap.NewNop().Sugar()
+	jp := NewJobProvider(&Config{}, metrics, lg)
+	jp.jobsChan = make(chan *Job, 2)
+	jp.jobs = map[pipeline.SourceID]*Job{1: job}
+
+	w := &worker{maxEventSize: maxEventSize, cutOffEventByLimit: cutOff}
+	in := &verifInputer{}
+	for _, a := range appends {
+		if len(a) > 0 {
+			if _, err = wf.Write(a); err != nil {
+				return nil, 0, nil, false, err
+			}
+		}
+		if job.isDone {
+			job.isDone = false
+			jp.jobsDone.Dec()
+		}
+		jp.jobsChan <- job
+		jp.jobsChan <- nil
+		w.work(in, jp, readBufferSize, lg)
+	}
+	return in.calls, job.curOffset, append([]byte(nil), job.tail...), job.shouldSkip.Load(), nil
+}
